@@ -3,7 +3,8 @@ import PysnarkModel.Driver.Proto
 /-!
 # Line protocol for guard histories (C08): `H|id|p=..,bl=..|tokens`
 tokens: `G:<k>:<c>(` … `)` guarded(); `A:<k>:<c>(` … `)` bare add_guard/restore_guard;
-`T(` … `)` try/except; `!` raise; `lt:a:b`; `az:a`.   k ∈ L (PrivVal) B (PrivValBool) I (int)
+`R(` … `)` / `RS(` … `)` re-entry of the decorator object of the innermost enclosing `G:` region (by recursion of the
+decorated function / by sharing the decorator object with a callee: the same model event); `T(` … `)` try/except; `!` raise; `lt:a:b`; `az:a`.   k ∈ L (PrivVal) B (PrivValBool) I (int)
 -/
 namespace Pysnark.ProtoGuard
 open Pysnark
@@ -21,6 +22,7 @@ def parseList : Nat → List String → Option (List Ev × List String)
       let one : Option (Ev × List String) :=
         if t == "!" || t == "!b" then some (.raise, r)
         else if t == "T(" then (parseList fuel r).map fun (b, r') => (.tryCatch b, r')
+        else if t == "R(" || t == "RS(" then (parseList fuel r).map fun (b, r') => (.reenter b, r')
         else match t.splitOn ":" with
           | ["lt", a, b] => do pure (.opLt (← a.toInt?) (← b.toInt?), r)
           | ["az", a] => do pure (.opAssertZero (← a.toInt?), r)
@@ -52,7 +54,7 @@ def handleHist (fields : List String) : String :=
       let ts := (toks.splitOn " ").filter (· ≠ "")
       match parseList (ts.length + 1) ts with
       | some (es, []) =>
-        let (s, exc) := execList es s0
+        let (s, exc) := execList es [] s0
         s!"{id}|{if exc then "raised" else "ok"}|{tripleStr s}|NPRIV={s.priv.length}|NCONS={s.cons.length}"
       | _ => s!"{id}|bad-history"
   | _ => "bad-line"
